@@ -32,6 +32,7 @@ func (t *tagged) Unwrap() error { return t.err }
 type call struct {
 	Op  string `json:"op"`
 	Res string `json:"res"`
+	Raw string `json:"-"` // ID: the string returned
 }
 
 type fault struct {
@@ -95,7 +96,7 @@ func (r *recorder) end(op, res string) {
 	defer r.mu.Unlock()
 	r.inflight--
 	if op != "" {
-		r.calls = append(r.calls, call{op, res})
+		r.calls = append(r.calls, call{op, res, ""})
 	}
 }
 
@@ -132,6 +133,19 @@ func (r *recorder) received() int {
 	r.mu.Lock()
 	defer r.mu.Unlock()
 	return r.ncalls
+}
+
+// completed: calls that have returned
+func (r *recorder) completed() int {
+	r.mu.Lock()
+	defer r.mu.Unlock()
+	return r.ncalls - r.inflight
+}
+
+func (r *recorder) hasFired() bool {
+	r.mu.Lock()
+	defer r.mu.Unlock()
+	return r.fired
 }
 
 // ---- value-returning methods ----
@@ -391,11 +405,17 @@ func (r *recorder) writerCall(op string, f func() (ociregistry.BlobWriter, error
 		if err == nil {
 			w.Close()
 		}
+		w = nil
 		err = injected(fl)
 	}
 	if err != nil {
 		err = r.wrapErr(err)
 		r.end(op, r.errTerm(err))
+		if w != nil {
+			// a member that hands out a writer TOGETHER with an error: pass it on as it is
+			// (the unifier closes whatever non-nil writer it is handed)
+			return &recWriter{r, 999999, w}, err
+		}
 		return nil, err
 	}
 	r.mu.Lock()
@@ -460,7 +480,10 @@ func (w *recWriter) ChunkSize() int {
 func (w *recWriter) ID() string {
 	w.r.begin()
 	id := w.r.canonID(w.w.ID())
-	w.r.end(fmt.Sprintf("WID %d", w.h), "Ok (RStr "+bterm(id)+")")
+	w.r.mu.Lock()
+	w.r.inflight--
+	w.r.calls = append(w.r.calls, call{fmt.Sprintf("WID %d", w.h), "Ok (RStr " + bterm(id) + ")", id})
+	w.r.mu.Unlock()
 	return id
 }
 func (w *recWriter) Commit(dig ociregistry.Digest) (ociregistry.Descriptor, error) {
